@@ -15,9 +15,10 @@ IMPORTS = ["from Reduino.Actuators import RGBLed", "from Reduino.Communication i
 
 META_PART = ("C04_rgb: device model of set_color/on/off/fade/blink (integer fade arithmetic with round-half-away, delay (unsigned long)(x+0.5f), "
              "skipped zero delays); clamp clause proved for all values and histories (also the interpolated fade values); device = host proved for "
-             "all histories of set_color/on/off with int components 0..255 (C04_rgb_set_partial); fade and blink are tied by the correspondence and "
-             "the oracle inside the guard (whole duration, positive int steps/times, no fade step landing exactly on .5) but have no simulation "
-             "theorem; the rounding difference is refuted with the witness fade(1,0,0,100,steps=2) from black.")
+             "ALL histories of set_color/on/off/fade/blink inside the guard (C04_rgb_partial: int components 0..255, whole duration >= 0, positive "
+             "int steps/times, delay >= 0, no fade step landing exactly on .5 in any channel): same canonical per-pin level signal with whole-"
+             "millisecond time stamps, no host call raises; the rounding difference outside the guard is refuted with the witness "
+             "fade(1,0,0,100,steps=2) from black.")
 
 # wire op codes (C19_ledW): 3 set_color, 4 on, 5 off, 6 fade, 7 blink
 NAMES = {3: "set_color", 4: "on", 5: "off", 6: "fade", 7: "blink"}
